@@ -118,6 +118,15 @@ func c20Vole(res *Result, tr *ndWriter, calls []voleCall, rng *rand.Rand) {
 		for i := range xs {
 			xs[i] = fieldElem(rng, p, rng.Intn(7))
 			ys[i] = fieldElem(rng, p, rng.Intn(7))
+			// the sender's x_i in another representation of the same residue: -a (= p-a) or a+p
+			switch rng.Intn(12) {
+			case 0:
+				xs[i] = new(big.Int).Sub(xs[i], p)
+			case 1:
+				xs[i] = new(big.Int).Add(xs[i], p)
+			case 2:
+				xs[i] = new(big.Int).Neg(fieldElem(rng, p, 3))
+			}
 		}
 		var rs, us []*big.Int
 		var ps, pr string
